@@ -46,7 +46,21 @@ remap_omega_iff remap_lazy_iff remap_not_pauli_blocks_auto'''.split()] + [
 insert_step insert_keeps_chain_eq_registers length_mismatch extend_registers_sorted
 unsorted_block_counterexamples positions_before_merge slips_counterexamples
 idle_order_irrelevant'''.split()]
-LEAN_MODULES = ['FFVerif.Props.C05', 'FFVerif.Props.C05d', 'FFVerif.Props.C05e', 'FFVerif.Props.C06Def']
+LEAN_MODULES = ['FFVerif.Props.C05', 'FFVerif.Props.C05d', 'FFVerif.Props.C05e', 'FFVerif.Props.C06Def',
+                'FFVerif.Props.C05Nfold', 'FFVerif.Props.C05NfoldAsm']
+# modules C05Nfold / C05NfoldAsm (model ExtendAsm): the n-fold extension rule — any number of pulses on arbitrary
+# interleaved ascending qubit tuples plus idle qubits —, all blocks of the filter function, and the assembled arrays of
+# extend = the from-scratch quantities of the tensor-product pulse
+THEOREMS = THEOREMS + [
+    'FFVerif.C05Nfold.piKron_isEigh', 'FFVerif.C05Nfold.piKron_segProp',
+    'FFVerif.C05Nfold.piKron_propagators_model', 'FFVerif.C05Nfold.extend_control_matrix_nfold_trace',
+    'FFVerif.C05Nfold.extend_control_matrix_nfold', 'FFVerif.C05Nfold.register_data_exist',
+    'FFVerif.C05Nfold.extend_filter_function_nfold', 'FFVerif.C05Nfold.extend_filter_function_nfold_model',
+    'FFVerif.C05Nfold.scaling_factor_eq', 'FFVerif.C05Nfold.extendRow_eq_from_scratch',
+    'FFVerif.C05Nfold.layout_card', 'FFVerif.C05Nfold.extendRow_eq_from_scratch_layout',
+    'FFVerif.C05Nfold.cm_row_congr', 'FFVerif.C05Nfold.extendControlMatrix_eq_from_scratch',
+    'FFVerif.C05Nfold.extendFilterFunction_eq_from_scratch', 'FFVerif.RegLayout.pauliBasis_regEquiv',
+    'FFVerif.RegLayout.equivalentPauli_regEquiv']
 PINS = ['pinExtend', 'pinRemap', 'pinMergeAttrs', 'pinInsertAttrs', 'pinDefaultExtendMapping',
         'pinMapIdentifiers']
 GEN_SITES = ['einsum:numeric_calculate_filter_function_0',
@@ -115,6 +129,8 @@ def correspondence(ctx):
     # which coefficient row sits under each identifier, additional noise Hamiltonian, dt / t / tau,
     # error classes)
     corr_script(ctx, 'corr_c06def', ['extend'])
+    # control-matrix / filter-function assembly of extend vs the model ExtendAsm and vs the from-scratch pulse
+    corr_script(ctx, 'corr_c05nfold', ['extendasm'])
     lines, refs = [], []
     for N in range(1, 5):
         for k in range(1, N + 1):
@@ -139,7 +155,8 @@ def qubit_pulse(rng, nq, traceless_nops, n_dt, dt, tag):
                 n_coeffs=rng.uniform(0.3, 1.5, (n_n, n_dt)), dt=dt,
                 # sometimes the Pauli basis re-indexed through numpy (the object keeps its label)
                 basis=('pauli',) if rng.random() < 0.8 else
-                ('derived', ('pauli',), 'permute', int(rng.integers(0, 2**31))),
+                ('derived', ('pauli',), str(rng.choice(['permute', 'swap2', 'swap_last'])),
+                 int(rng.integers(0, 2**31))),
                 features=['nontraceless_nop'] if not traceless_nops else [])
 
 
